@@ -1685,6 +1685,27 @@ impl<'t, 'b> G<'t, 'b> {
                 self.features.insert("set-comprehension-element-read-from-another-stanza");
             }
         }
+        // a shorthand whose expansion mentions `$0`/`$1`, used inside a scan arm: the expansion
+        // sees the captures of the arm it is used in
+        if self.cfg.shorthands && self.cfg.scans && self.t.chance(1, 3) {
+            let shn = self.fresh_name("rxsh");
+            let item = Item::Shorthand {
+                id: self.id(),
+                name: shn.clone(),
+                var_id: self.id(),
+                var: "rxsh_p".into(),
+                attrs: vec![
+                    Attr { name: format!("{}_a", shn), value: Some(Expr::Var { id: self.id(), name: "rxsh_p".into() }) },
+                    Attr { name: format!("{}_g", shn), value: Some(Expr::RegexCap(1)) },
+                ],
+            };
+            self.extra_items.push(item);
+            let node = sc(self, "r", &name);
+            let use_it = Stmt::AttrNode { id: self.id(), node, attrs: vec![Attr { name: shn, value: Some(Expr::RegexCap(0)) }] };
+            let scan = Stmt::Scan { id: self.id(), value: Expr::Str("ab".into()), arms: vec![ScanArm { regex: "(a)(b)?".into(), body: vec![use_it] }] };
+            out.push(mk(self, "r", vec![scan]));
+            self.features.insert("shorthand-with-regex-captures-used-in-a-scan-arm");
+        }
         // a fourth stanza holds the stored node in a local and prints it (or a call on it)
         if self.cfg.prints && self.t.chance(1, 2) {
             let read = sc(self, "p", &name);
